@@ -1,6 +1,8 @@
 #!/bin/sh
 # Build the Lean models, proofs and the line-protocol driver from files on disk (offline).
 set -e
-cd "$(dirname "$0")/lean"
+cd "$(dirname "$0")"
+/venv/bin/python harness/tables.py
+cd lean
 lake build wd
 lake build WD
